@@ -105,6 +105,23 @@ def check(env, rep, tier):
                         and v.gen is not None and v.gen == t[1].variants[1].fields[0].gen))]
             if not src:
                 good = False
+        shr = [e for e in tr.events if e[0] == "buffer-shrink"]
+        rep.ob("C09.1", "buffer-only-grows-until-final", not shr,
+               "the handler itself cuts or empties the per-key upload buffer while it is still collecting blocks (%s): a block delivered "
+               "twice, or out of the expected position, makes the blocks received before it disappear" % sorted(set(e[1] for e in shr)), site,
+               sample={"rule": "C09.1", "shrinking_calls": len(shr)})
+        # a request that carries a (decodable) Block1 option is never passed on / answered without a Block1 option on the reply
+        n_b1, bad_b1 = 0, 0
+        for s, rv in tr.res:
+            if s.ghost.get("has_Block1") is not True or "err" in tr.ret_kind(rv) or s.ghost.get(("inj", "block-undecodable")):
+                continue
+            marks = set(k[1] for k in s.ghost if isinstance(k, tuple) and k[0] == "inj")
+            n_b1 += 1
+            if not (marks & {"add_option_as:Block1", "add_option:Block1", "set_options_as:Block1", "set_option:Block1"}):
+                bad_b1 += 1
+        rep.ob("C09.1", "block1-always-acknowledged", bad_b1 == 0 and n_b1 >= 2,
+               "a request carrying a Block1 option can leave the handler without a Block1 option on its reply (%d of %d paths): e.g. an upload "
+               "that fits one block is not acknowledged" % (bad_b1, n_b1), site, sample={"rule": "C09.1", "paths_with_block1": n_b1})
         rep.ob("C09.1", "final-payload-is-buffer", good, "the payload delivered with the final block is not the value taken from the per-key buffer", site)
         rep.ob("C09.1", "splice-unconditional", ok["spliced"],
                "an upload block can be acknowledged (2.31) or completed without having been spliced into the per-key buffer", site)
